@@ -16,8 +16,9 @@ var ErrDevice = errors.New("simulated device failure")
 
 // Stream is the content the simulated device produces.
 type Stream struct {
-	data   []byte // finite part (prf, literal, biased)
-	period []byte // periodic / const: repeated forever
+	data    []byte // finite part (prf, literal, biased)
+	period  []byte // periodic / const: repeated forever
+	eofData bool   // the last bytes are handed out together with io.EOF
 }
 
 // Len returns the stream length, -1 for an endless one.
@@ -92,6 +93,12 @@ var streamCache struct {
 
 // BuildStream materialises a stream for a run needing `required` bytes.
 func BuildStream(sp StreamSpec, required int64) *Stream {
+	st := buildStream(sp, required)
+	st.eofData = sp.EOFData
+	return st
+}
+
+func buildStream(sp StreamSpec, required int64) *Stream {
 	switch sp.Kind {
 	case "const":
 		return &Stream{period: []byte{byte(sp.Byte)}}
@@ -210,6 +217,7 @@ type SimSource struct {
 	inRead     int
 	MaxInRead  int
 	ShortReads int
+	EOFWithData int
 	toggle     bool
 	stuck      bool
 	Log        []ReadRec
@@ -363,6 +371,10 @@ func (s *SimSource) serve(p []byte) (int, error) {
 	s.Delivered += int64(got)
 	if got < len(p) {
 		s.ShortReads++
+	}
+	if s.st.eofData && s.st.Len() >= 0 && s.pos == s.st.Len() {
+		s.EOFWithData++
+		return got, io.EOF
 	}
 	return got, nil
 }
